@@ -1467,11 +1467,22 @@ def sibling_findings(b, r):
             except MissingMethod as e:
                 r.violate(key + ':missing', ENCODING, 0, '%s is missing (%s) although the sibling builders define it: unprefixed literals using this escape crash the parser' % (key, e))
                 break
+            except AnalysisError:
+                raise
+            except Exception as e:      # an exception of the reference builtins: the parser would crash on this piece of a literal
+                r.violate(key + ':crash', ENCODING, b.methods('StrLiteralBuilder')[meth].lineno if meth in b.methods('StrLiteralBuilder') else 0,
+                          '%s%r raises %s: %s (UTF-8 source): the parser crashes on an unprefixed literal containing this text' % (key, args, type(e).__name__, e))
+                continue
             for attr, cname in sorted(subs.items()):
                 try:
                     alone = b.effect(cname, meth, args)
                 except MissingMethod as e:
                     r.violate('%s.%s:missing' % (cname, meth), ENCODING, 0, '%s.%s is missing although a sibling builder defines it' % (cname, meth))
+                    continue
+                except AnalysisError:
+                    raise
+                except Exception as e:
+                    r.violate('%s.%s:crash' % (cname, meth), ENCODING, 0, '%s.%s%r raises %s: %s (UTF-8 source)' % (cname, meth, args, type(e).__name__, e))
                     continue
                 mine = [(p.split('/', 1)[1], v) for p, v in both if p.startswith(attr + '/')]
                 if mine != alone:
